@@ -397,6 +397,15 @@ static uint64_t canon_hash(void)
         if (D.cur[p].active) {
             h = vx_mix(h, vx_hash_str(5, D.cur[p].od->name));
             h = vx_mix(h, vx_hash_bytes(1, &D.cur[p].t_call, 8));
+            h = vx_mix(h, D.cur[p].in * 2 + (uint64_t)(D.nevents != D.cur[p].ev_at_call));
+        }
+        if (D.inited[p]) {
+            uint64_t racc = 0;
+            for (const struct cmi_slist_head *r = D.procs[p].resources.next; r; r = r->next) {
+                const struct cmi_process_holdable *ph = cmi_container_of(r, struct cmi_process_holdable, listhead);
+                racc += vx_mix((uint64_t)((const char *)ph->res - (const char *)&D) + 3, 9);
+            }
+            h = vx_mix(h, racc);
         }
         h = vx_mix(h, D.pool_held[p] * 16 + (uint64_t)D.ntimers[p]);
         /* awaits list: types and (for timers) nothing else: the events are hashed below */
@@ -455,18 +464,52 @@ static uint64_t canon_hash(void)
         h = vx_mix(h, guard_hash(&D.cond.guard));
     }
     h = vx_mix(h, (uint64_t)D.X);
+    /* pending events in the order in which they will run (FIFO among ties matters for the future) */
     const struct cmi_hashheap *eq = cmi_verif_event_queue();
-    uint64_t acc = 0;
-    for (uint64_t j = 1; j <= eq->heap_count; j++) {
-        const struct cmi_heap_tag *tg = &eq->heap[j];
-        uint64_t e = vx_hash_bytes(2, &tg->dsortkey, 8);
-        e = vx_mix(e, (uint64_t)tg->isortkey);
-        e = vx_mix(e, (uint64_t)(uintptr_t)tg->item[0]);
-        e = vx_mix(e, (uint64_t)des_pidx(tg->item[1]) + 1);
-        e = vx_mix(e, (uint64_t)(uintptr_t)tg->item[2]);
-        acc += e;
+    {
+        const struct cmi_heap_tag *ord[128];
+        uint64_t ne = eq->heap_count < 128 ? eq->heap_count : 128;
+        for (uint64_t j = 0; j < ne; j++) {
+            ord[j] = &eq->heap[j + 1];
+        }
+        for (uint64_t a = 1; a < ne; a++) {
+            const struct cmi_heap_tag *t = ord[a];
+            uint64_t b = a;
+            while (b > 0 && (*eq->heap_compare)(t, ord[b - 1])) {
+                ord[b] = ord[b - 1];
+                b--;
+            }
+            ord[b] = t;
+        }
+        for (uint64_t j = 0; j < ne; j++) {
+            const struct cmi_heap_tag *tg = ord[j];
+            uint64_t e = vx_hash_bytes(2, &tg->dsortkey, 8);
+            e = vx_mix(e, (uint64_t)tg->isortkey);
+            e = vx_mix(e, (uint64_t)(uintptr_t)tg->item[0]);
+            e = vx_mix(e, (uint64_t)des_pidx(tg->item[1]) + 1);
+            e = vx_mix(e, (uint64_t)(uintptr_t)tg->item[2]);
+            for (const struct cmi_slist_head *w = (const struct cmi_slist_head *)tg->item[3]; w; w = w->next) {
+                const struct cmi_process_waiter *pw = cmi_container_of(w, struct cmi_process_waiter, listhead);
+                e = vx_mix(e, (uint64_t)des_pidx(pw->proc) + 77);
+            }
+            h = vx_mix(h, e);
+        }
+        h = vx_mix(h, eq->heap_count);
     }
-    h = vx_mix(h, acc);
+    /* the driver's handles: which pending event each of them names (by its rank in time order is enough) */
+    for (int p = 0; p < D.P; p++) {
+        for (int k = 0; k < D.ntimers[p]; k++) {
+            if (cmb_event_is_scheduled(D.timers[p][k])) {
+                double tt = cmb_event_time(D.timers[p][k]);
+                h = vx_mix(h, vx_hash_bytes((uint64_t)(p * 8 + k), &tt, 8));
+            }
+        }
+        h = vx_mix(h, (uint64_t)D.resume_pending[p] * 2 + (uint64_t)(D.pq_handle[p] != 0));
+    }
+    for (int k = 0; k < NENVEV; k++) {
+        h = vx_mix(h, (uint64_t)(D.envev[k] != 0 && cmb_event_is_scheduled(D.envev[k])));
+    }
+    h = vx_mix(h, (uint64_t)D.rec_state);
     for (int m = 0; m < nmons; m++) {
         if (mons[m]->hash) {
             h = vx_mix(h, mons[m]->hash());
